@@ -9,13 +9,18 @@ import (
 	"github.com/fatedier/frp/zzverif"
 )
 
+// zzChanSender is the sending side the transporter is built on in these harnesses: a plain queue.
+type zzChanSender chan msg.Message
+
+func (c zzChanSender) Send(m msg.Message) error { c <- m; return nil }
+
 // VerifC16Transporter: the control read loop hands answers to waiting requests through the message
 // transporter; a peer that answers one transaction twice, or answers after the requester gave
 // up, must not be able to stall the read loop (every dispatch returns) nor the requester.
 func VerifC16Transporter() {
 	zzverif.SetPreempt(zzverif.Param("preempt", 0))
 	sendCh := make(chan msg.Message, 4)
-	tr := NewMessageTransporter(sendCh)
+	tr := NewMessageTransporter(zzChanSender(sendCh))
 	ctx, cancel := context.WithCancel(context.Background())
 	var got msg.Message
 	var doErr error
@@ -60,7 +65,7 @@ func VerifC16Transporter() {
 func VerifC20TwoTransactions() {
 	zzverif.SetPreempt(zzverif.Param("preempt", 0))
 	sendCh := make(chan msg.Message, 4)
-	tr := NewMessageTransporter(sendCh)
+	tr := NewMessageTransporter(zzChanSender(sendCh))
 	type res struct {
 		m    msg.Message
 		err  error
